@@ -442,7 +442,18 @@ def rule_d(ctx):
     am.let("t_in", "voxels_dst.to_voxel_center().to(self.transformation.input_dtype, self.coordinatesystem_dst)")
     am.let("t_out", "self.transformation.inverse(t_in)")
     s1 = am.has(f.node, "voxels_dst.to_voxel_center().to(self.transformation.input_dtype, self.coordinatesystem_dst)")
-    ctx.ob(R, f.qname, "stage 1: destination voxels -> voxel centres -> transformation input type in the destination system", s1 is not None, "", f.node)
+    # named contradiction: the voxels of the destination system (integer indices: coordinatesystem.voxels / make_voxel) are handed to `.to(<input type>, cs)`
+    # without a conversion to voxel centres on the way -- the pull-back is evaluated at the corners, the warp is shifted by half a voxel
+    corner = None
+    for c_ in body_nodes:
+        if isinstance(c_, ast.Call) and isinstance(c_.func, ast.Attribute) and c_.func.attr == "to" and c_.args and "input_dtype" in norm(c_.args[0]):
+            recv = expand(f.node, c_.func.value)
+            t_ = norm(recv)
+            if "to_voxel_center" not in t_ and "VoxelCenter" not in t_ and "make_voxel_center" not in t_ and "+ 0.5" not in t_ and (t_.endswith(".voxels") or t_.startswith(("darsia.make_voxel(", "darsia.VoxelArray("))):
+                corner = c_
+    ctx.ob(R, f.qname, "stage 1: destination voxels -> voxel centres -> transformation input type in the destination system", s1 is not None,
+           (f"`{norm(corner)[:80]}` converts the integer voxels themselves: the transformation is evaluated at voxel corners, not centres" if corner is not None else ""), corner or f.node,
+           evidence=corner is not None)
     s2 = am.has(f.node, "self.transformation.inverse(t_in)")
     ctx.ob(R, f.qname, "stage 2: the inverse transformation is applied to stage 1", s2 is not None, "", f.node)
     s3 = am.has(f.node, "voxels_src = t_out.to_voxel(self.coordinatesystem_src)")
@@ -556,11 +567,19 @@ def rule_f(ctx):
                     return role(b.id)
                 if isinstance(b, ast.Attribute) and isinstance(b.value, ast.Name) and (b.value.id == "self" or b.value.id in params):
                     return role(b.attr)
+                if isinstance(b, ast.Name) and b.id not in params:
+                    # a local bound once to a typed conversion: it holds points of the system they were converted in (aliases of the system followed)
+                    defs = [s_ for s_ in ast.walk(f.node) if isinstance(s_, ast.Assign) and len(s_.targets) == 1 and isinstance(s_.targets[0], ast.Name) and s_.targets[0].id == b.id]
+                    if len(defs) == 1 and isinstance(defs[0].value, ast.Call) and isinstance(defs[0].value.func, ast.Attribute) and defs[0].value.func.attr in ("to_voxel", "to_coordinate", "to_voxel_center") \
+                            and defs[0].value.args:
+                        cs_ = expand(f.node, defs[0].value.args[-1])
+                        if "coordinatesystem" in norm(cs_) and isinstance(cs_, ast.Attribute) and isinstance(cs_.value, ast.Name) and cs_.value.id == "self":
+                            return role(cs_.attr)
                 return None
 
             for c in ast.walk(f.node):
                 if isinstance(c, ast.Call) and isinstance(c.func, ast.Attribute) and c.func.attr in ("to_coordinate", "to_voxel", "to_voxel_center", "to") and c.args:
-                    cs = c.args[-1]
+                    cs = expand(f.node, c.args[-1])
                     r_recv, r_cs = api_role(c.func.value), api_role(cs)
                     if r_recv and r_cs and "coordinatesystem" in norm(cs):
                         n += 1
